@@ -49,7 +49,7 @@ def extra(case, lines, rot):
         dt = doctest_example.DocTest(text, callname='c18', lineno=start)
         dt._parse()
     # expected formatted lines from the abstract line list
-    exp, exp_idx, exp_exec = [], [], []
+    exp, exp_idx, exp_exec, exp_mixed = [], [], [], []
     expanded = [t.expandtabs() for t in lines]
     common_indent = min([len(t) - len(t.lstrip(' ')) for t in expanded if t.strip()] or [0])
     chunk_ind = {}
@@ -69,11 +69,18 @@ def extra(case, lines, rot):
         if lab != 'want':
             exp_idx.append(j)
             exp_exec.append(body[4:])
+            exp_mixed.append(body[4:])
+        else:
+            exp_mixed.append(body)
     if not exp:
         return []
     got = dt.format_src(linenos=False, colored=False, want=True, prefix=True).split('\n')
     if got != exp:                      # exact, trailing blanks included
         bad.append(('format_src(prompts,wants)', exp, got))
+    # source without prompts, wants kept (rendered FIRST among the prompt-less views: rendering must not change what is rendered)
+    got3 = dt.format_src(linenos=False, colored=False, want=True, prefix=False).split('\n')
+    if [g for g in got3 if g.strip()] != [e for e in exp_mixed if e.strip()]:
+        bad.append(('format_src(no prompts,wants)', exp_mixed, got3))
     got2 = dt.format_src(linenos=False, colored=False, want=False, prefix=False).split('\n')
     # a bare "..." terminator is an empty executable line; without prompts it has no text to show
     if [g for g in got2 if g.strip()] != [e for e in exp_exec if e.strip()] and exp_exec:
@@ -111,6 +118,13 @@ def extra(case, lines, rot):
                 bad.append(('freeform_line_numbers(offset=%s,start=%d)' % (offset, start), want_nums, nums))
     elif exp_idx:
         bad.append(('freeform_collection', 'one doctest', len(exs)))
+    # rendering is read-only: the same views once more, after all the others
+    again = dt.format_src(linenos=False, colored=False, want=True, prefix=True).split('\n')
+    if again != got:
+        bad.append(('format_src_repeatable(prompts,wants)', got, again))
+    again3 = dt.format_src(linenos=False, colored=False, want=True, prefix=False).split('\n')
+    if again3 != got3:
+        bad.append(('format_src_repeatable(no prompts,wants)', got3, again3))
     # parse the formatted text again
     if exp:
         try:
